@@ -44,6 +44,10 @@ class ServicesManager:
             async with self._access_dict_lock:
                 prev_server = self._service_dict.get(sid)
                 if prev_server is None:
+                    if has_sent_control_message:
+                        # the connections served while this one was waiting may have changed the stored service:
+                        # do not work on (and later store) the state read when this connection was opened
+                        service.load_stored_service()
                     self._service_dict[sid] = service
                     break
 
